@@ -44,7 +44,7 @@ Definition res_eqb (a b : res) : bool :=
    3 U+FFFD doubles as the "out of range" sentinel of charAt / charCodeAt (s[i] repaired by 66edf49)
    4 (fixed 8a02cb3, no longer produced) charAt / charCodeAt receivers that are not String objects
    5 undefined this is replaced by the global object (Function.prototype.call / apply)
-   6 lastIndexOf: NaN position taken as 0, -Infinity as +Infinity
+   6 (fixed ea386ab, no longer produced) lastIndexOf: NaN position taken as 0, -Infinity as +Infinity
    7 (fixed 27b5748, no longer produced) int64 wrap-around in substr / lastIndexOf
    8 (fixed 4b90749, no longer produced) "01", "+1", "-0" accepted as index names
    9 argument conversions out of the ES5 step order: skipped (split with limit 0, lastIndexOf on
@@ -72,12 +72,7 @@ Definition classify (m : meth) (r : recv) (args : list arg) : Z :=
   match r with
   | RUndef => 5
   | _ =>
-      if (match m with MLastIndexOf => true | _ => false end) &&
-              (match to_number (arg_at args 1) with
-               | Some b => (2 <=? length args)%nat && negb (match arg_at args 1 with AUndef => true | _ => false end) &&
-                           (is_nan_bits b || (b =? ninf_bits))
-               | None => false end) then 6
-      else if has_lone (recv_units r) || existsb arg_lone args then 2
+      if has_lone (recv_units r) || existsb arg_lone args then 2
       else if is_charm m && has_fffd (recv_units r) then 3
       else if res_has_sur (call_spec m r args) then 2
       else 1
